@@ -87,6 +87,15 @@ type addRec struct {
 	seqEnd int
 }
 
+// opRec: the interval (in global sequence numbers) during which an operation that refreshes the bucket of
+// timestamp ts (and may therefore perform / meet its rollover) was in flight
+type opRec struct {
+	worker   int
+	ts       uint64
+	beg, end int
+	add      *addRec
+}
+
 type readRec struct {
 	ev     int
 	ts     uint64
@@ -134,7 +143,18 @@ func execute(s *scen, ch coop.Chooser) (*coop.Result, string, string) {
 	T := tCreate + 7*cycle
 	var adds []*addRec
 	var reads []*readRec
+	var ops []*opRec
 	seq := 0
+	opBegin := func(w int, ts uint64, a *addRec) *opRec {
+		seq++
+		o := &opRec{worker: w, ts: ts, beg: seq, end: 1 << 30, add: a}
+		ops = append(ops, o)
+		return o
+	}
+	opEnd := func(o *opRec) {
+		seq++
+		o.end = seq
+	}
 	inflight := map[int]uint64{}
 	warmAmt := int64(0)
 	switch s.Family {
@@ -181,34 +201,39 @@ func execute(s *scen, ch coop.Chooser) (*coop.Result, string, string) {
 				case "add":
 					a := &addRec{amt: int64(1) << (4 * uint(nAmt)), ev: o.Ev, worker: w}
 					nAmt++
-					seq++
-					a.seqBeg = seq
 					a.ts = clk.Ms()
+					op := opBegin(w, a.ts, a)
+					a.seqBeg = op.beg
 					inflight[w] = a.ts
 					adds = append(adds, a)
 					arr.AddCount(base.MetricEvent(o.Ev), a.amt)
 					delete(inflight, w)
-					seq++
-					a.seqEnd = seq
+					opEnd(op)
+					a.seqEnd = op.end
 				case "conc":
 					inflight[w] = clk.Ms()
+					op := opBegin(w, clk.Ms(), nil)
 					arr.UpdateConcurrency(int32(3 + w))
 					delete(inflight, w)
+					opEnd(op)
 				case "read":
 					r := &readRec{ev: o.Ev, ts: clk.Ms(), worker: w}
+					op := opBegin(w, r.ts, nil)
 					r.val = arr.Count(base.MetricEvent(o.Ev))
 					r.tsEnd = clk.Ms()
-					seq++
-					r.seqEnd = seq
+					opEnd(op)
+					r.seqEnd = op.end
 					reads = append(reads, r)
 				case "values":
 					ts := clk.Ms()
+					op := opBegin(w, ts, nil)
 					for _, bw := range arr.Values(ts) {
 						mb := bw.Value.Load().(*sbase.MetricBucket)
 						for ev := 0; ev < 4; ev++ {
 							_ = mb.Get(base.MetricEvent(ev))
 						}
 					}
+					opEnd(op)
 				}
 			}
 		}
@@ -325,6 +350,26 @@ func execute(s *scen, ch coop.Chooser) (*coop.Result, string, string) {
 		}
 		if !overlap && got != want {
 			return res, "warm:total-not-exact", fmt.Sprintf("no recorder overlapped a rollover, final CountWithTime(ev %d) = %#x, recorded %#x", ev, got, want)
+		}
+		// per amount: a recorder that was alone on its slot (no other operation refreshing a bucket of the same
+		// slot was in flight at any time during its call - whatever happened on OTHER slots) did not overlap
+		// the rollover of its own bucket with anybody: its amount must be in the total
+		if s.N > 1 {
+			for _, o := range ops {
+				a := o.add
+				if a == nil || a.ev != ev || want&a.amt == 0 || got&a.amt != 0 {
+					continue
+				}
+				alone := true
+				for _, p := range ops {
+					if p != o && (p.ts/L)%N == (o.ts/L)%N && p.beg < o.end && o.beg < p.end {
+						alone = false
+					}
+				}
+				if alone {
+					return res, "lost-update-without-overlapping-own-rollover", fmt.Sprintf("amount %#x (ev %d) recorded by worker %d at t=T%+d, alone on its slot during the whole call (other operations in flight only on other slots), is missing from the final total %#x", a.amt, ev, a.worker, int64(a.ts)-int64(T), got)
+				}
+			}
 		}
 		if got != want {
 			run.Count("schedules_with_permitted_loss", 1)
